@@ -1230,6 +1230,7 @@ func laFooterMeta(c *Ctx, rule string, which map[string]bool) {
 		}
 		r.count(rule+"/group-repetition", n)
 		r.floor(rule+"/group-repetition", 1, "schema.schema()")
+		laSchemaChildren(c, rule)
 	}
 	if which["rows"] {
 		// Metadata.RowGroups(): Rows <- NumRows
@@ -1306,17 +1307,22 @@ func laFooterMeta(c *Ctx, rule string, which map[string]bool) {
 			r.undecided(rule, key, u.Pos(gs.Pos()), "getMetaDataSize does not seek to a constant offset from the end")
 			return
 		}
+		// the function that obtains the footer length: ReadMetaData itself or a helper of it
 		var size ssa.Value
-		for _, b := range rm.Blocks {
-			for _, ins := range b.Instrs {
-				if call, ok := ins.(*ssa.Call); ok && call.Call.StaticCallee() == gs {
-					size = extractOf(call, 0)
+		seekFn := rm
+		for _, g := range unitFns(u, rm) {
+			for _, b := range g.Blocks {
+				for _, ins := range b.Instrs {
+					if call, ok := ins.(*ssa.Call); ok && call.Call.StaticCallee() == gs {
+						size = extractOf(call, 0)
+						seekFn = g
+					}
 				}
 			}
 		}
 		okSeek := false
 		var why string
-		for _, b := range rm.Blocks {
+		for _, b := range seekFn.Blocks {
 			for _, ins := range b.Instrs {
 				call, ok := ins.(*ssa.Call)
 				if !ok || !call.Call.IsInvoke() || call.Call.Method.Name() != "Seek" {
